@@ -103,8 +103,13 @@ func VerifC03History(h *verifh.H) {
 					h.Known("C03-incoming-tombstone", multiKnown)
 				}
 				h.Assert(vJoin(got) == vJoin(want), "a query with several start entities equals the union of the single-start answers"+q+" got="+vJoin(got)+" want="+vJoin(want))
-				for _, lim := range []int{1, 2} {
-					pres, err := hub.Store.GetManyRelatedEntitiesBatch(known, pred, inv == 1, nil, lim, true)
+				rev := []string{known[2], known[1], known[0]}
+				for k, lim := range []int{1, 2, 1, 2} {
+					order := known
+					if k >= 2 {
+						order = rev // the same request with the start entities listed the other way round
+					}
+					pres, err := hub.Store.GetManyRelatedEntitiesBatch(order, pred, inv == 1, nil, lim, true)
 					h.Assert(err == nil, "paged query")
 					all := append([]RelatedEntityResult{}, pres.Relations...)
 					cont := pres.Cont
